@@ -60,7 +60,7 @@ abbrev PressResult := Option (Behavior × Nat)
 def tableLookup (tbl : List (Nat × Nat)) (index : Nat) : Option Nat :=
   (tbl.find? (·.1 == index)).map (·.2)
 
-def tablePress (tbl : List (Nat × Nat)) (c : Nat) (k : KeyEvent) : PressResult :=
+def tablePress (tbl : List (Nat × Nat)) (c : Nat) (k : KeyEv) : PressResult :=
   match tableLookup tbl k.index with
   | none => some (.keyError, c)
   | some b =>
@@ -132,7 +132,7 @@ def hsuGtoJ (c : Nat) : Option Nat :=
 def jqxToZhChSh : List (Nat × Nat) := [(Sym.J, Sym.ZH), (Sym.Q, Sym.CH), (Sym.X, Sym.SH)]
 def zhChShToJqx : List (Nat × Nat) := [(Sym.ZH, Sym.J), (Sym.CH, Sym.Q), (Sym.SH, Sym.X)]
 
-def hsuPress (c : Nat) (k : KeyEvent) : PressResult :=
+def hsuPress (c : Nat) (k : KeyEv) : PressResult :=
   if hsuEndKeys.contains k.code && !isEmptySyl c then
     (endRewrite hsuEndRewrites c).bind fun c1 =>
     (hsuGtoJ c1).bind fun c2 =>
@@ -153,7 +153,7 @@ def hsuPress (c : Nat) (k : KeyEvent) : PressResult :=
 def jxToZhSh : List (Nat × Nat) := [(Sym.J, Sym.ZH), (Sym.X, Sym.SH)]
 def gToQ : List (Nat × Nat) := [(Sym.G, Sym.Q)]
 
-def et26Press (c : Nat) (k : KeyEvent) : PressResult :=
+def et26Press (c : Nat) (k : KeyEv) : PressResult :=
   if et26EndKeys.contains k.code && !isEmptySyl c then
     (endRewrite et26EndRewrites c).bind fun c1 =>
     (toneStep et26ToneKeys c1 k.code).map fun c2 => (.commit, c2)
@@ -200,7 +200,7 @@ def dc26K44 (c : Nat) : Option PressResult :=
     some ((update c Sym.OU).map fun c' => (.absorb, c'))
   else none
 
-def dc26Press (c : Nat) (k : KeyEvent) : PressResult :=
+def dc26Press (c : Nat) (k : KeyEv) : PressResult :=
   if dc26EndKeys.contains k.index && !isEmptySyl c then
     (toneStep dc26ToneKeys c k.index).map fun c1 => (.commit, c1)
   else
@@ -231,7 +231,7 @@ def altLookup (tbl : List (List Nat × List (List Nat))) (s : Nat) : List Nat :=
 /-! ### the layouts as records, and the trait's default `fuzzy_key_press` -/
 
 structure Layout where
-  press : Nat → KeyEvent → PressResult
+  press : Nat → KeyEv → PressResult
   alt : Nat → List Nat
 
 def standardL : Layout := { press := tablePress standardTable, alt := fun _ => [] }
@@ -254,7 +254,7 @@ def layoutByName (n : String) : Option Layout :=
   | _ => none
 
 /-- `SyllableEditor::fuzzy_key_press` (trait default) -/
-def Layout.fuzzyPress (L : Layout) (c : Nat) (k : KeyEvent) : PressResult :=
+def Layout.fuzzyPress (L : Layout) (c : Nat) (k : KeyEv) : PressResult :=
   if isEmptySyl c then L.press c k
   else
     match L.press clearSyl k with
@@ -268,8 +268,8 @@ def Layout.fuzzyPress (L : Layout) (c : Nat) (k : KeyEvent) : PressResult :=
 
 /-- what can be done to a layout -/
 inductive LOp
-  | key (k : KeyEvent)
-  | fuzzyKey (k : KeyEvent)
+  | key (k : KeyEv)
+  | fuzzyKey (k : KeyEv)
   | removeLast
   | clear
 deriving Repr, DecidableEq
@@ -289,7 +289,7 @@ def Layout.run (L : Layout) (c : Nat) : List LOp → Option (List (Behavior × N
     | some (b, c') => (L.run c' ops).map fun tr => (b, c') :: tr
 
 /-- type plain key presses from the fresh state; result of the last one -/
-def Layout.typeKeys (L : Layout) (c : Nat) : List KeyEvent → PressResult
+def Layout.typeKeys (L : Layout) (c : Nat) : List KeyEv → PressResult
   | [] => some (.ignore, c)
   | [k] => L.press c k
   | k :: ks =>
